@@ -211,7 +211,26 @@ def r04b(model: Model, rr: RuleResult):
         if isinstance(made, ast.Call) and callee_tail(made) == "newGlyph" and len(made.args) == 1 and isinstance(made.args[0], ast.Call) \
                 and callee_tail(made.args[0]) == "glyph_name" and len(made.args[0].args) == 1:
             okb = norm(made.args[0].args[0]) == norm(st.value)
-    if okb:
+    if okb is None:
+        # name and codepoint taken from two sequences walked in parallel: positive when each was ordered by its own key (names as strings, codepoints as numbers)
+        from ..dataflow import deref as _d4b
+        for st in uni:
+            par = None
+            for lp in [x for x in ast.walk(e.node) if isinstance(x, ast.For)]:
+                if any(y is st for y in ast.walk(lp)):
+                    par = lp
+            if par is not None and isinstance(par.iter, ast.Call) and norm(par.iter.func) == "zip" and len(par.iter.args) == 2:
+                a_ = _d4b(ecfg, ecfg.node_for(par), par.iter.args[0])
+                b_ = _d4b(ecfg, ecfg.node_for(par), par.iter.args[1])
+                ta, tb = norm(a_), norm(b_)
+                if ta.startswith("sorted(") and "glyph_name(" in ta and (tb.startswith("sorted(") or isinstance(b_, ast.Name)) and "glyph_name(" not in tb:
+                    rr.bad(e, par, f"blank glyph names ({short(a_, 60)}) and codepoints ({short(b_, 50)}) are sorted separately and then paired by zip: names are hex strings of "
+                           f"different lengths (g_20e3 < g_23 but 0x23 < 0x20e3), so blank glyphs receive each other's codepoint and every ligature rule addresses the wrong glyph",
+                           construct="_ensure_codepoints_will_have_glyphs: names and codepoints paired by zip of two sort orders")
+                    okb = "reported"
+    if okb == "reported":
+        pass
+    elif okb:
         rr.ok("each blank glyph maps its own codepoint")
     elif okb is False:
         rr.bad(e, e.node, "blank glyphs are not mapped from their codepoint", construct="blank glyph unicode")
@@ -329,8 +348,20 @@ def r04d(model: Model, rr: RuleResult):
                 out.append((t_, pol_))
         return out
     VB = _canon([("view_box is not None", True)])[0]
-    for st in w:
+    from ..guards import guard_facts as _gf4
+
+    def cases_of(st):
+        """value cases of the assignment; a value that is a plain local is followed to the assignments that reach it, each under its own guards as well"""
         for v, facts in value_cases(cfg, st):
+            if isinstance(v, ast.Name):
+                ds = [d for d in cfg.reaching(cfg.node_for(st), v.id) if d.value is not None]
+                if ds:
+                    for d in ds:
+                        yield d.value, [(norm(t_), pol_) for t_, pol_ in _gf4(cfg, d.node)] + list(facts)
+                    continue
+            yield v, facts
+    for st in w:
+        for v, facts in cases_of(st):
             if "_advance_width(view_box, font_config)" not in norm(v):
                 continue
             facts = _canon(facts)
@@ -525,8 +556,19 @@ def decode(name: str, sep: str) -> str:
 
 
 def r04e_impl(model: Model, rr: RuleResult):
-    g = extract_name_grammar(model)
     gfi = model.func("glyph", "glyph_name")
+    # order of the two final steps: the non-letter prefix must be decided on the name that is returned, i.e. after the long-name hash replaced it
+    hashes = [st for st in ast.walk(gfi.node) if isinstance(st, ast.Assign) and "b32encode" in norm(st.value)]
+    alpha_tests = [n for n in ast.walk(gfi.node) if isinstance(n, ast.Call) and callee_tail(n) == "isalpha" and "[0]" in norm(n.func)]
+    if hashes and alpha_tests:
+        hpos = (hashes[0].lineno, hashes[0].col_offset)
+        before = [n for n in alpha_tests if (n.lineno, n.col_offset) < hpos]
+        after = [n for n in alpha_tests if (n.lineno, n.col_offset) > hpos]
+        if before and not after:
+            rr.bad(gfi, before[0], "the 'starts with a letter' test (and the g_ prefix) is applied BEFORE the long-name hash: a hashed name (base32: letters and the digits 2-7) that "
+                   "starts with a digit is emitted without prefix, which feature files do not accept as a glyph name", construct="glyph_name: prefix decided before the hash step")
+            return
+    g = extract_name_grammar(model)
     if g["fmt"] != "%x" or g["letter_rule"] != "ch.isalpha() and _isascii(ch)":
         raise AnalysisError(f"glyph._name token rule changed ({g['fmt']!r}, {g['letter_rule']!r}); the regular abstraction needs review")
     if g["cond"] != "not name[0].isalpha()":
